@@ -28,7 +28,7 @@ RULE = ('Fault alphabet per attempt: timeout, ServerDisconnectedError, Connectio
         'ClientConnectionError, ClientPayloadError, HTML 500 "work queue depth exceeded", empty-body '
         'refusal, JSON -28 warming-up (single and inside a batch), block stream cut after k chunks. '
         'Exhaustive: every fault sequence of length <= 3 (quick) / <= 4 (thorough) x 1..3 URLs x '
-        '3 back-off settings x 13 call kinds (height, block hashes in/out of range, empty vector, '
+        '3 back-off settings x 14 call kinds (height, block hashes in/out of range, empty vector, '
         'mempool, single/vector raw transactions with and without error replacement, broadcast '
         'accepted/rejected, block-to-file); plus Hypothesis-drawn sequences up to length 14 with '
         '1..4 concurrent calls while the world changes on every attempt. Oracle: result equals the '
@@ -48,7 +48,7 @@ N_FAULTS = 9        # fault codes 1..9; 0 = no fault
 LATENCY = 0.01
 CALL_KINDS = ['height', 'hashes_ok', 'hashes_oob', 'empty_vector', 'mempool', 'rawtx_known',
               'rawtx_unknown', 'rawtxs_replace', 'rawtxs_strict_ok', 'rawtxs_strict_err',
-              'broadcast_ok', 'broadcast_reject', 'get_block']
+              'broadcast_ok', 'broadcast_reject', 'get_block', 'height_twice']
 VECTOR_KINDS = {'hashes_ok', 'hashes_oob', 'rawtxs_replace', 'rawtxs_strict_ok',
                 'rawtxs_strict_err'}
 
@@ -258,7 +258,7 @@ def model_attempts(n_faults, n_urls, init_retry, max_retry):
 
 def expected(world, kind, a, t):
     '''(kind, value): ("ok", v) or ("daemon_error",).  t = tick at the answering attempt.'''
-    if kind == 'height':
+    if kind in ('height', 'height_twice'):
         return 'ok', world.height(t)
     if kind == 'hashes_ok':
         first, count = a % 4, 1 + a % 3
@@ -302,6 +302,12 @@ def _tx_list(a, with_unknown):
 async def invoke(daemon, kind, a, scratch, idx):
     if kind == 'height':
         return await daemon.height()
+    if kind == 'height_twice':
+        await daemon.height()
+        got = await daemon.height()
+        if daemon.cached_height() != got:
+            raise RuntimeError(f'cached_height() {daemon.cached_height()} != last height {got}')
+        return got
     if kind == 'hashes_ok':
         return await daemon.block_hex_hashes(a % 4, 1 + a % 3)
     if kind == 'hashes_oob':
@@ -381,6 +387,14 @@ def run_case(scratch, case):
     url_seq = [bases.index(a[1]) for a in attempts]
     info['failover'] = len(set(url_seq)) > 1
     single = len(calls) == 1
+    if single and calls[0][0] == 'height_twice':
+        # two sequential requests: only the (fresh) result is judged, not the retry model
+        got = outcome['results'][0]
+        if got[0] == 'exception':
+            return f'call height_twice raised {got[1]}', 'exception', info
+        want = expected(world, 'height', 0, attempts[-1][3])
+        msg = compare('height', 0, got, want, scratch, 0, world)
+        return (msg, 'result', info) if msg else (None, None, info)
     # every fail-over moves to the next URL, round-robin (concurrent calls failing together each
     # cause one fail-over, so the attempt sequence itself may skip)
     for before, after in outcome['failovers']:
